@@ -30,7 +30,7 @@ INVS = ["TypeOK", "ScopesFaithful", "WalkSubRule", "WalkEqRule", "DecoratedOnce"
         "LinePreserved", "ImportPlaced", "DecoIndexOK", "EvalOnce", "ScopeBalanced"]
 LEGACY = ["async_no_scope", "copy_subexprs"]
 # spec mutant -> (slice, MaxNodes, MaxDepth)
-MUTANTS = {"no_pop_nested_class": ("scope", 4, 3), "class_body_checked": ("scope", 3, 3),
+MUTANTS = {"no_pop_nested_class": ("scope", 4, 4), "class_body_checked": ("scope", 3, 3),
            "import_before_future": ("prefix", 3, 2), "method_decorated": ("scope", 3, 3),
            "first_is_top": ("deco", 2, 3), "subscript_checked": ("kinds", 2, 3)}
 LEGACY_DEMO = {"async_no_scope": ("scope", 4, 3, "ScopesFaithful"), "copy_subexprs": ("scope", 2, 3, "EvalOnce")}
@@ -100,12 +100,8 @@ def node_class(prog, i):
         return {"node": "module"}
     n = prog[i - 1]
     near, outer = scope_class(prog, i)
-    d = {"node": n["k"], "nearest_scope": near, "nearest_non_async_scope": outer}
-    if n["k"] == "ann":
-        d["target"] = n["tgt"]
-    if n["k"] == "func":
-        d["async"] = n["asy"]
-    return d
+    return {"node": ("afunc" if n["asy"] else "func") if n["k"] == "func" else n["k"],
+            "nearest_scope": near, "nearest_non_async_scope": outer}
 
 
 # =============================================================================== renderer
@@ -694,14 +690,14 @@ EMIT_INVS = ["TypeOK", "LinePreserved", "ImportPlaced", "ChecksWellPlaced", "Sco
 
 def slices_of(tier):
     if tier == "quick":
-        return {"scope": (5, 3), "kinds": (3, 3), "deco": (3, 3), "prefix": (4, 2)}
-    return {"scope": (6, 3), "kinds": (3, 3), "kinds4": (4, 3), "deco": (4, 3), "prefix": (5, 3)}
+        return {"scope": (5, 4), "kinds": (3, 3), "deco": (3, 3), "prefix": (4, 2)}
+    return {"scope": (6, 4), "kinds": (3, 3), "kinds4": (4, 3), "deco": (4, 3), "prefix": (5, 3)}
 
 
 def intended_of(tier):
     """Bounds of the intended-design runs (self-consistency of the spec: Walk = Rule etc.)."""
     if tier == "quick":
-        return {"scope": (4, 3), "kinds": (2, 3), "deco": (3, 3), "prefix": (4, 2)}
+        return {"scope": (4, 4), "kinds": (2, 3), "deco": (3, 3), "prefix": (4, 2)}
     return slices_of(tier)
 
 
@@ -877,7 +873,7 @@ def do_shape(rep, rows, finds, pool, sel=None):
             else:
                 for key, what in classify_shape(prog, real, rule):
                     finds.add(key, f"SHAPE conf={row['conf']}: {what}\n{describe_row(row, ri)}", case)
-            if edit_set(edits, True) != edit_set(row["walk"], True):
+            if real != rule and edit_set(edits, True) != edit_set(row["walk"], True):
                 real_r, walk_r = edit_set(edits, True), edit_set(row["walk"], True)
                 for key, what in classify_shape(prog, {e[:5] for e in real_r}, {e[:5] for e in walk_r}) or \
                         [({"diff": "reeval"}, f"{sorted(real_r ^ walk_r)}")]:
@@ -960,6 +956,9 @@ def _first_diff(a, b):
         x = a[k] if k < len(a) else None
         y = b[k] if k < len(b) else None
         if x != y:
+            # prefer the event one side lacks
+            if y is not None and a.count(y) < b.count(y):
+                return y
             return x if x is not None else y
     return None
 
@@ -1014,7 +1013,7 @@ def compare_meaning(rep, rows, plan, obs, finds):
             d2 = _cmp_byhand(h, obs[("reference", iid + ".L")], r2, m)
         else:
             d2 = d
-        if d2 is not None:
+        if d is not None and d2 is not None:
             key = {"obs": "meaning-vs-0.23.0-model", "field": d2[0]}
             finds.add(key, f"MEANING: hooked module differs from the by-hand module of the rule AND of the model of "
                            f"the known 0.23.0 deviations: {d2[1]}{src}", case)
@@ -1039,14 +1038,10 @@ def compare_meaning(rep, rows, plan, obs, finds):
                     key = {"obs": "evalcount", "expr": part, "node": nd["k"], "count": got}
                 finds.add(key, f"EVALCOUNT: original expression {ckey} evaluated {got} time(s) under the hook, the "
                                f"property demands {want['n']} (plain Python: {want['py']}){src}", case)
-            if (complete and got != legacy["n"]) or got > legacy["n"]:
+            if (over or under) and got != legacy["n"]:
                 finds.add({"obs": "evalcount-vs-0.23.0-model", "expr": part},
                           f"EVALCOUNT: {ckey} evaluated {got} time(s); rule {want['n']}, model of 0.23.0 {legacy['n']}{src}",
                           case)
-        if vname == "G":
-            if h["exc"] is not None and rr["exc"] is None and d is None:
-                pass
-            rep.nontrivial("m:" + row_key(row))
         # hooked == unhooked where nothing violates
         if unh and rr["exc"] is None and h["exc"] is None:
             u = obs[("unhooked", iid)]
@@ -1139,7 +1134,9 @@ def do_resilience(rep, rows, sel, finds, batch=250):
         for i in sorted(set(funcs) | {p}):
             got = log.get(f"f{i}", "never called")
             if got == "never called":
-                rep.machinery(f"resilience scenario: f{i} was never called{src}")
+                finds.add({"obs": "resilience", "what": "definition not reached", "poisoned": at},
+                          f"RESILIENCE: f{i} was never reached (an enclosing definition failed){src}", case)
+                continue
             if i == p:
                 if got is not None:
                     finds.add({"obs": "resilience", "what": "poisoned definition not left unchecked", "at": at},
@@ -1244,12 +1241,12 @@ def data_files():
     return out
 
 
-def do_given(rep, d, finds):
-    from verifkit import tlc
-    from verifkit.util import write_file
+def do_given(rep, d, finds, only=None):
     progs = {}
     skipped = []
     for path in data_files():
+        if only is not None and os.path.relpath(path, _repo()) != only:
+            continue
         src = open(path, encoding="utf-8").read()
         try:
             tree = ast.parse(src)
@@ -1257,19 +1254,8 @@ def do_given(rep, d, finds):
         except (NotImplementedError, SyntaxError) as ex:
             skipped.append(f"{os.path.relpath(path, _repo())}: {ex}")
             continue
-        if not prog:
-            # the empty module: no statement, no edit
-            prog = []
         progs.setdefault(json.dumps(prog, sort_keys=True), []).append((path, src, nal, prog))
-    body = ",\n  ".join("<<" + ", ".join(_tla_node(n) for n in json.loads(k)) + ">>" for k in sorted(progs))
-    write_file(d, "ClawAstGiven.tla",
-               "---- MODULE ClawAstGiven ----\nEXTENDS ClawAst\nGivenDef == {\n  " + body + "\n}\n====\n")
-    cfg = _cfg(d, "given", "given", 1, 1, legacy=LEGACY, emit=True, invs=EMIT_INVS, given=True)
-    res = tlc.run_tlc(os.path.join(d, "ClawAstGiven.tla"), cfg, workers=4, deadlock=False)
-    rep.tlc(res, f"ClawAst slice given: {len(progs)} trees abstracted from {DATA_DIR}")
-    if not res.ok:
-        rep.machinery(f"ClawAst.tla violates {res.violated} on a tree abstracted from the repository's data packages")
-    rows = rows_of(res)
+    rows = tlc_rows_for(rep, d, [json.loads(k) for k in sorted(progs)], "given", f"abstracted from {DATA_DIR}")
     seen = 0
     for row in rows:
         for path, src, nal, prog in progs.get(json.dumps(row["prog"], sort_keys=True), []):
@@ -1291,7 +1277,7 @@ def do_given(rep, d, finds):
             if real != rule:
                 for key, what in classify_shape(prog, real, rule):
                     finds.add(key, f"SHAPE {rel} conf={row['conf']}: {what}", case)
-            if edit_set(sd.edits, True) != edit_set(row["walk"], True):
+            if real != rule and edit_set(sd.edits, True) != edit_set(row["walk"], True):
                 finds.add({"obs": "shape-vs-0.23.0-model", "file": rel},
                           f"SHAPE {rel}: {sorted(edit_set(sd.edits, True) ^ edit_set(row['walk'], True))}", case)
             rep.add("traces_validated_against_impl")
@@ -1315,6 +1301,13 @@ ASSUMPTIONS = [
 ]
 
 
+# slice -> (MEANING for every program up to this size, sampling probability above it)
+MEANING_PLAN = {
+    "quick": {"scope": (4, 0.06), "kinds": (2, 0.3), "deco": (2, 0.4), "prefix": (4, 1.0)},
+    "thorough": {"scope": (5, 0.1), "kinds": (3, 1.0), "kinds4": (3, 0.15), "deco": (3, 0.05), "prefix": (5, 1.0)},
+}
+
+
 def select_rows(rows, tier, rng):
     """Row indices for MEANING (hookable configurations only) and RESILIENCE."""
     meaning, resil = [], []
@@ -1323,11 +1316,8 @@ def select_rows(rows, tier, rng):
             continue
         n = len(row["prog"])
         sl = row["slice"]
-        lim = {"quick": {"scope": 4, "kinds": 3, "deco": 3, "prefix": 4},
-               "thorough": {"scope": 5, "kinds": 3, "kinds4": 4, "deco": 3, "prefix": 5}}[tier].get(sl, 3)
-        if n <= lim:
-            meaning.append(ri)
-        elif rng.random() < {"quick": 0.08, "thorough": 0.12}[tier]:
+        full, prob = MEANING_PLAN[tier].get(sl, (3, 0.1))
+        if n <= full or rng.random() < prob:
             meaning.append(ri)
         if sl == "scope" and row["conf"]["pep"] and n <= (3 if tier == "quick" else 4) \
                 and edit_set(row["walk"], False) == edit_set(row["rule"], False) \
@@ -1371,62 +1361,64 @@ def run(rep, tier, seed):
     rep.sample({"program": describe_row(mid, len(rows) // 2), "conf": mid["conf"], "rule_edits": mid["rule"]})
     for r in rows[:: max(1, len(rows) // 5)][:5]:
         rep.sample({"program": describe_row(r), "conf": r["conf"], "rule_edits": r["rule"]})
+    rep.cov["rule"] = ("cases = rows of the TLC case table of ClawAst.tla: every module tree of the bounded grammars "
+                       "(slices scope / kinds / deco / prefix) x configuration, each rendered to source and run through "
+                       "the real transformer (all rows) and through unhooked / hooked / by-hand interpreters (hookable "
+                       "configurations; all small trees, a seeded sample of the largest size) with one variant per "
+                       "good/bad value assignment; distinct = distinct (tree, configuration); non-trivial = the Rule "
+                       "demands at least one decorator or check besides the import")
+    rep.cov["exhaustive"] = False
     finds.report(rep)
 
 
+def tlc_rows_for(rep, d, progs, slice_="replay", label="replay"):
+    """Let TLC compute the rows (Rule and Legacy walk) of explicitly given trees."""
+    from verifkit import tlc
+    from verifkit.util import write_file
+    body = ",\n  ".join("<<" + ", ".join(_tla_node(n) for n in pr) + ">>" for pr in progs)
+    write_file(d, "ClawAstGiven.tla",
+               "---- MODULE ClawAstGiven ----\nEXTENDS ClawAst\nGivenDef == {\n  " + body + "\n}\n====\n")
+    cfg = _cfg(d, "given_" + slice_, slice_, 1, 1, legacy=LEGACY, emit=True, invs=EMIT_INVS, given=True)
+    res = tlc.run_tlc(os.path.join(d, "ClawAstGiven.tla"), cfg, workers=4, deadlock=False, env=_jvm(2))
+    rep.tlc(res, f"ClawAst slice {slice_}: {len(progs)} given tree(s) ({label})")
+    if not res.ok:
+        rep.machinery(f"ClawAst.tla violates {res.violated} on a given tree ({label})")
+    return rows_of(res)
+
+
 def replay(rep, path):
+    """Re-run one reported case.  The expected edit sets are recomputed by TLC from the stored tree."""
     global _SEED
     body = json.load(open(path))
     case = body["case"]
     _SEED = body.get("seed", 0)
     rep.assumptions.extend(ASSUMPTIONS)
     finds = Findings()
-    from verifkit import tlc
     from verifkit.util import scratch
     with scratch("c05-") as d:
-        # the model is re-run on the small deco slice so that the evidence carries TLC statistics
-        res = tlc.run_tlc(SPEC, _cfg(d, "replay", "prefix", 2, 2), workers=2, deadlock=False)
-        rep.tlc(res, "ClawAst prefix slice (replay)")
         if case["kind"] == "given":
-            do_given(rep, d, finds)
+            do_given(rep, d, finds, only=case["file"])
         else:
             ri = case["ri"]
-            rows = [None] * ri + [case["row"]]
-            sel = [ri]
-            real_conf(case["row"]["conf"])
-            # SHAPE
-            only = _shape_chunk((_SEED, [(ri, case["row"])]))
-            _replay_shape(rep, rows, ri, only, finds)
-            if case["row"]["conf"]["other"]:
-                do_meaning_safe(rep, rows, sel, finds)
+            stored = case["row"]
+            fresh = [r for r in tlc_rows_for(rep, d, [stored["prog"]]) if r["conf"] == stored["conf"]]
+            if len(fresh) != 1:
+                rep.machinery("TLC did not recompute the row of the stored case")
+            row = dict(fresh[0], slice=stored["slice"])
+            if edit_set(row["rule"]) != edit_set(stored["rule"]):
+                rep.note("the specification now computes a different edit set than when the case was recorded")
+            rows = {ri: row}
+            do_shape(rep, rows, finds, None, sel=[ri])
+            if row["conf"]["other"]:
+                items, plan = build_meaning_items(rows, [ri], None)
+                obs = run_children(batches(items, 250))
+                compare_meaning(rep, rows, plan, obs, finds)
             if case["kind"] == "resilience":
-                do_resilience(rep, rows, sel, finds)
-    rep.sample({"program": describe_row(case["row"], case.get("ri", 0)) if "row" in case else case.get("file")})
-    rep.nontrivial("a")
-    rep.nontrivial("b")
+                do_resilience(rep, rows, [ri], finds)
+            rep.sample({"program": describe_row(row, ri), "conf": row["conf"], "rule_edits": row["rule"]})
+    rep.nontrivial("replayed-case")
+    rep.nontrivial("replayed-case-2")
     finds.report(rep)
-
-
-def _replay_shape(rep, rows, ri, only, finds):
-    row = rows[ri]
-    for _ri, edits, problems in only:
-        rep.count(1)
-        case = {"kind": "row", "row": row, "ri": ri}
-        for p in problems:
-            finds.add({"obs": "shape", "diff": "problem", "what": p.split(" at line")[0].split(" (line")[0][:80]},
-                      f"{p}\n{describe_row(row, ri)}", case)
-        if edits is None:
-            continue
-        real, rule = edit_set(edits, False), edit_set(row["rule"], False)
-        if real != rule:
-            for key, what in classify_shape(row["prog"], real, rule):
-                finds.add(key, f"SHAPE conf={row['conf']}: {what}\n{describe_row(row, ri)}", case)
-
-
-def do_meaning_safe(rep, rows, sel, finds):
-    items, plan = build_meaning_items(rows, sel, None)
-    obs = run_children(batches(items, 250))
-    compare_meaning(rep, rows, plan, obs, finds)
 
 
 if __name__ == "__main__":
